@@ -105,7 +105,7 @@ PROPS = {
         "level": "other",
         "rules": [("CP", 32, has("builder::sdd::", "repr::sdd::SddPtr")), ("DT", 7, has("SddPtr", "BottomUpBuilder::or:", "BottomUpBuilder::compose:")),
                   ("IM", 14, has("IM2", "IM3")), ("HE", 4, has("BinarySDD:scratch", "SddOr:scratch", "BinarySDD:fields", "SddOr:fields")),
-                  ("ST", 2, None), ("SH", 1, has("SddPtr> for T>::condition")), ("SA", 12, None), ("VX", 11, None),
+                  ("ST", 2, None), ("SH", 1, has("SddPtr> for T>::condition")), ("SA", 10, None), ("VX", 11, None),
                   ("VO", 1, vo_sel("::sdd::", only_label_order=True)),
                   ("GL", 12, has(":GL1:", ":GL2:", "SddPtr> for T>::ite:GL4", "SddPtr> for T>::and:GL4", "AllIteTable:GL8", ":GL10:", "SddPtr> for T>::ite:GL11", "SddPtr> for T>::and:GL11")),
                   ("BT", 9, None), ("MK", 0, has("::sdd::")), ("WC", 4, has("sdd-"))],
